@@ -198,6 +198,8 @@ func c10RT(out *vh.Out, op string) {
 	}
 }
 
+func c10Reader(b []byte) *bufio.Reader { return bufio.NewReader(bytes.NewReader(b)) }
+
 func c10Bit(b bool) string {
 	if b {
 		return "1"
